@@ -7,6 +7,7 @@ import (
 
 	"github.com/orbs-network/lean-helix-go/services/interfaces"
 	"github.com/orbs-network/lean-helix-go/spec/types/go/primitives"
+	"github.com/orbs-network/lean-helix-go/spec/types/go/protocol"
 
 	"verif/ref"
 	"verif/spi"
@@ -64,6 +65,7 @@ func NewAdversary(w *World, p *Profile) *Adversary {
 		{"crossInstance", 5, a.crossInstance},
 		{"corruptNested", 3, a.corruptNested},
 		{"reblock", 6, a.reblock},
+		{"wrapLen", 0, a.wrapLen},
 	}
 	for i := range a.strat {
 		if p.AdvWeights != nil {
@@ -1451,4 +1453,59 @@ func (a *Adversary) emptyHashProof(h, v uint64) *ref.Proof {
 		return p
 	}
 	return nil
+}
+
+// wrapLen: a PREPARE or COMMIT for the node's current height and view (or the next view) from a Byzantine member,
+// correctly signed over its header, whose fixed-size header fields (type, instance, height, view) are in order but whose last
+// field, the block hash, declares a length next to 2^32: 32-bit offset arithmetic wraps, eager parsing succeeds, and the
+// first reader of the hash field fails deep inside the handling code (a lazily parsing reader).
+func (a *Adversary) wrapLen(h uint64) bool {
+	bm := a.byzMembers(h)
+	nodes := a.at(h)
+	if len(bm) == 0 || len(nodes) == 0 {
+		return false
+	}
+	n := nodes[a.r.Intn(len(nodes))]
+	c := a.w.Comm(h)
+	v := uint64(n.St.View()) + uint64(a.r.Intn(2))
+	var b string
+	for _, cand := range bm {
+		if cand != c.Leader(v) {
+			b = cand
+		}
+	}
+	if b == "" {
+		return false
+	}
+	inst := uint64(spi.InstanceId)
+	hash := make([]byte, 32)
+	a.r.Read(hash)
+	if ps := a.proposals(h); len(ps) > 0 && a.r.Intn(2) == 0 {
+		hash = []byte(ps[a.r.Intn(len(ps))].hash)
+	}
+	env, typ := ref.EnvP, ref.P
+	if a.r.Intn(2) == 0 {
+		env, typ = ref.EnvC, ref.C
+	}
+	hdr := append([]byte{}, (&ref.Ref{Type: typ, Inst: inst, H: h, V: v, Hash: hash}).Bytes()...)
+	at := len(hdr) - len(hash) - 4
+	if at < 0 {
+		return false
+	}
+	hdr[at], hdr[at+1], hdr[at+2], hdr[at+3] = byte(0xe0+a.r.Intn(32)), 0xff, 0xff, 0xff // little-endian length 0xffffffe0..ff
+	sg := (&ref.Sig{Id: b, Sig: a.sign(b, h, hdr)}).Builder()
+	var content []byte
+	if env == ref.EnvP {
+		content = (&protocol.PrepareContentBuilder{SignedHeader: protocol.BlockRefBuilderFromRaw(hdr), Sender: sg}).Build().Raw()
+	} else {
+		content = (&protocol.CommitContentBuilder{SignedHeader: protocol.BlockRefBuilderFromRaw(hdr), Sender: sg, Share: a.share(b, h)}).Build().Raw()
+	}
+	lb := &protocol.LeanhelixContentBuilder{}
+	if env == ref.EnvP {
+		lb.Message, lb.PrepareMessage = protocol.LEANHELIX_CONTENT_MESSAGE_PREPARE_MESSAGE, protocol.PrepareContentBuilderFromRaw(content)
+	} else {
+		lb.Message, lb.CommitMessage = protocol.LEANHELIX_CONTENT_MESSAGE_COMMIT_MESSAGE, protocol.CommitContentBuilderFromRaw(content)
+	}
+	a.sendRaw(b, n.Id, &interfaces.ConsensusRawMessage{Content: lb.Build().Raw()})
+	return true
 }
